@@ -125,3 +125,25 @@ PROPS["C13"] = dict(
                                                                  "alt_checked": 200, "filler_insertions_checked": 500, "built_from_text": 200}),
     assumptions=[A_SAN, A_GEN],
 )
+
+PROPS["C05"] = dict(
+    title="JSGF compilation preserves the language of the grammar",
+    level="exploration",
+    technique="runtime oracle: generator-side JSGF AST evaluated by least fix point (bounded-length language) and a tail-call analysis, compared with the language enumerated from the compiled FSG's observed arcs",
+    level_text="exploration: random JSGF ASTs (<= 6 rules, nesting <= 5, sequences, weighted alternatives, groups, optionals, * and +, "
+               "rule references incl. repeated and recursive ones, <NULL>, <VOID>, tags, comments, shuffled rule order) are printed, "
+               "compiled through jsgf_parse_string + jsgf_build_fsg(_raw) and jsgf_read_string, and the set of accepted word strings "
+               "of length <= 5 (quick) / 6 (thorough) over 3 words is compared with the AST's denotation; grammars the analysis marks "
+               "unrepresentable (non-tail recursion, reachable undefined rule, no public rule) must be refused; in non-recursive "
+               "grammars every state of the raw FSG must be stochastic (weights normalised).",
+    level_note="bounded string length and alphabet; weights only on first atoms of alternatives (their JSGF meaning); quoted tokens are not "
+               "generated (scanner keeps the quotes: recorded in DESIGN.md as an observation outside this check)",
+    rule="one case = one generated grammar; non-trivial = representable and denoting >= 2 strings, or marked must-refuse; distinct = hash of the grammar text.",
+    stages=[
+        dict(harness="h_jsgf", flavor="asan", quick=1500, thorough=30000),
+        dict(harness="h_jsgf", flavor="fast", quick=5000, thorough=150000, name="h_jsgf_fast"),
+    ],
+    floor=dict(min_evaluations=1000, min_distinct=300, counters={"languages_compared": 500, "class_tail_recursion": 20, "class_plain": 200,
+                                                                 "choice_points_checked": 200}),
+    assumptions=[A_SAN, A_GEN],
+)
